@@ -1,4 +1,11 @@
-"""C16 - Address types: text round-trip, ordering and range arithmetic are exact (DESIGN.md section 4, C16)."""
+"""C16 - Address types: text round-trip, ordering and range arithmetic are exact (DESIGN.md section 4, C16).
+
+spec/addr:  AddrRange (property level, W-bit space)   AddrRangeImpl (+cfgs: code-shaped iterator, Style v4|buf, Variant mutants)
+            AddrBytes + MCAddrBytes (real-width digit-wise operators and the bridge lemma)   AddrText (recognisers, accept/reject/unspec)
+            AddrRangeGen, AddrTextGen (scenario generators)   AddrTrace (the oracle for harness/addr_replay.cpp)
+Known-finding signatures can use the fields of sig(): family, kind, what (range|postinc|cmp|rt|wide|parse), t, win, k,
+spec_iterable, cls, colons_ge6.
+"""
 import collections
 import json
 import random
@@ -129,6 +136,7 @@ def sig(scen, kind, detail, rec=None):
             g["win"] = rec["win"]
     if "toks" in scen:
         g["what"] = "parse"
+        g["colons_ge6"] = string_of(scen).count(":") >= 6          # more than six ':'-separated groups
         if rec:
             g["cls"] = scen.get("cls", {}).get(rec.get("t"))
     else:
@@ -137,6 +145,8 @@ def sig(scen, kind, detail, rec=None):
             g["k"] = scen["k"]
         if "t" in scen:
             g["t"] = scen["t"]
+        if "iterable" in scen:
+            g["spec_iterable"] = scen["iterable"]                    # AddrRange!IsIterable of the model range
     return g
 
 
@@ -163,7 +173,7 @@ def run(tier):
              "[0.0.0.0, 255.255.255.255] has begin() == end(), its iteration is empty")
     # ---- scenarios
     rg, _ = vlib.tlc_generate("addr/AddrRangeGen", "AddrRangeGen_w%d.cfg" % W, timeout=600)
-    rg = list({vlib.canon_hash(s): s for s in rg}.values())
+    rg = sorted({vlib.canon_hash(s): s for s in rg}.values(), key=lambda s: (s["k"], s["a"], s["b"]))
     texts, gen_states = [], 0
     for m in ("v4", "v6", "hw"):
         s, r = vlib.tlc_generate("addr/AddrTextGen", "AddrTextGen_b1_%s.cfg" % m, timeout=900)
@@ -173,13 +183,13 @@ def run(tier):
             # -simulate evaluates Emit on every successor it draws from, so a few dozen walks of 3 mutations already
             # export ~10^5 strings with 2 and 3 mutations; a seeded sample of them is replayed
             s, r = vlib.tlc_generate("addr/AddrTextGen", "AddrTextGen_sim_%s.cfg" % m, simulate=40, depth=4, workers=4, timeout=900)
-            s = list({string_of(x): x for x in s}.values())
+            s = [x for _, x in sorted({string_of(x): x for x in s}.items())]     # TLC's output order is not deterministic
             rng.shuffle(s)
             texts += s[:25000]
     u = {}
     for s in texts:
         u.setdefault(s["mode"] + "|" + string_of(s), s)
-    texts = list(u.values())
+    texts = [u[k] for k in sorted(u)]
     for i, s in enumerate(texts):
         s["types"] = text_types(s, i, quick)
     cmps = cmp_scenarios(rng, 48 if quick else 64)
